@@ -170,6 +170,12 @@ def body_repoll(rep, case):
             day0 = dt.datetime(y, mo, d, start_min // 60, start_min % 60, tzinfo=z)
             epoch = int(day0.timestamp()) if first else epoch      # the record itself never changes
             reply = replies.schedules([(case.get("slot", 2), True, mask, 1, epoch, epoch + 1800, bytes(4))])
+            if not first and case.get("bad_between"):
+                # a reply cut in the middle of a record came in between (the parser may raise on it)
+                try:
+                    SwitcherGetSchedulesResponse(reply[:-9])
+                except Exception:
+                    pass
             resp = SwitcherGetSchedulesResponse(reply)
             sch = next(iter(resp.schedules))
             weekday = dt.date(y, mo, d).weekday()
@@ -181,14 +187,14 @@ def body_repoll(rep, case):
 
 
 def strat_repoll():
-    def mk(z, day, s1, gap_min, mask, start):
+    def mk(z, day, s1, gap_min, mask, start, bad):
         t1 = dt.datetime(day.year, day.month, day.day) + dt.timedelta(seconds=s1)
         t2 = t1 + dt.timedelta(minutes=gap_min)
-        return {"zone": z, "now1": [t1.year, t1.month, t1.day, t1.hour, t1.minute, t1.second],
+        return {"zone": z, "bad_between": bad, "now1": [t1.year, t1.month, t1.day, t1.hour, t1.minute, t1.second],
                 "now2": [t2.year, t2.month, t2.day, t2.hour, t2.minute, t2.second], "mask": mask * 2, "start": start}
     return st.builds(mk, st.sampled_from(["UTC", "Asia/Jerusalem", "America/New_York", "Asia/Kathmandu"]),
                      st.dates(dt.date(2024, 1, 8), dt.date(2024, 2, 20)), st.integers(0, 86399),
-                     st.one_of(st.integers(1, 180), st.integers(1, 8 * 1440)), st.integers(1, 127), st.integers(0, 1439))
+                     st.one_of(st.integers(1, 180), st.integers(1, 8 * 1440)), st.integers(1, 127), st.integers(0, 1439), st.booleans())
 
 
 def cases_dst_midnight(tier):
